@@ -110,7 +110,7 @@ def run(ctx):
     # sweep scenarios first (the driver sweeps the first N of the file): alternate the syncers
     ctx.rng.shuffle(scs)
     chosen = regression() + scs
-    s, nlines = drive_and_judge(ctx, chosen, sweep=16 if quick else 300, variants="model" if quick else "all", shards=1 if quick else 6)
+    s, nlines = drive_and_judge(ctx, chosen, sweep=16 if quick else 300, variants="all", shards=4 if quick else 6)
     ctx.cov.update(dict(
         states=states, transitions=trans, traces_validated_against_impl=s["runs"],
         samples=s["samples"][:2], model_runs=consts, scenarios_emitted=emitted, scenarios_replayed=s["scenarios"],
